@@ -85,6 +85,11 @@ TEMPLATES = [
     "[1, 2].reduce(a, v, a + match A { case int : v, case _ : 100 }, 0)", "{'a': 1}.map(k, match A { case 1 : k, case _ : 'z' })",
     "[[1], [2]].map(v, v.map(w, match A { case 1 : w, case _ : 0 }))", "[1, 2].map(v, [match A { case 1 : v }].size())",
     "size([1].map(v, match [A] { case list : 1, case _ : 2 }))", "[3].map(v, match A + v { case 4 : 'y', case _ : 'n' })[0]",
+    # a field whose name is also a function, a macro or a type: the folder reads the entry, and so must the VM
+    "{'size': A, 'b': 1}.size", "{'filter': A}.filter", "{'map': 1, 'a': A}.map + A", "{'min': A, 'max': 5}.max", "{'has': A}.has",
+    "{'int': A}.int", "{'contains': [A]}.contains[0]", "{'size': 3, 'b': A}.size", "{'all': A, 'exists': 2}.exists",
+    "{'now': A}.now", "{'reduce': {'map': A}}.reduce.map", "[{'sort': A}].map(v, v.sort)[0]", "{'coalesce': A}.coalesce",
+    "{'k': {'size': A}}.k.size", "{'timestamp': A, 'duration': 2}.duration", "{'size': A}.size + {'size': 1}.size",
 ]
 
 # names the compiler's own function table does not have (has, coalesce, functions bound by the caller) in a position
